@@ -112,12 +112,23 @@ def run(rep, work, rng, tier):
     damaged = [(name, buf, damage(rng, name, buf, tier) + structural_damage(rng, buf, buf.index(b'\x02') if buf[0] == 0 else 0, tier)) for name, buf in files]
     vb = vocabulary_file(rng)
     damaged.append(('vocab', vb, [('intact', vb)] + structural_damage(rng, vb, 0, tier)))
+    # well-formed files in which ONE of the parameters the loader reads a first value of is an EMPTY array (one dimension of 0
+    # entries, no value): nothing is damaged in the record chain, the value is simply not there
+    empties = []
+    for gname, pname in ((b'POINT', b'USED'), (b'POINT', b'FRAMES'), (b'POINT', b'RATE'), (b'ANALOG', b'USED'), (b'ANALOG', b'RATE'), (b'POINT', b'LABELS'), (b'ANALOG', b'LABELS'), (b'POINT', b'SCALE')):
+        cc = filegen.make_content(rng, dict(nframes=1, npoints=2, nchan=1, nsub=1, dense_ids=True, order='canonical', big_record=False, empty_analog=False, nlabels=2, nalabels=1))
+        gid = [r[1] for r in cc['records'] if r[0] == 'G' and r[2] == gname][0]
+        cc['records'] = [(r[:6] + ([0] if r[5] != 'C' else [r[6][0] if r[6] else 4, 0], [])) if (r[0] == 'P' and r[1] == gid and r[2] == pname) else r for r in cc['records']]
+        empties.append(('empty:%s:%s' % (gname.decode(), pname.decode()), c3dspec.encode(dict(zeros=0, paddr=2, prologue_zeroed=False, end_by_zero_offset=False, strpad=b' ', extra_pad_blocks=0), cc)))
+    # files that hold nothing but zero bytes (the scan for the first non-zero byte must end with the file)
+    for nz in (1, 2, 3, 300, 511, 512, 513, 1024, 4096): empties.append(('zeros:%d' % nz, bytes(nz)))
+    damaged.append(('special', b'', empties))
     for name, buf, dmg in damaged:
         for k, (lab, b) in enumerate(dmg):
             fn = '%s_%d.c3d' % (name, k); open(os.path.join(shared, fn), 'wb').write(b)
             cid = '%s_%d' % (name, k); labels[cid] = (name, lab, fn)
             cases.append((cid, ['loadx 0 ' + fn, 'snap 0']))
-            kk = 'structural' if lab.startswith('struct') else lab.split('@')[0].split('=')[0]; kinds[kk] = kinds.get(kk, 0) + 1
+            kk = 'structural' if lab.startswith('struct') else lab.split(':')[0] if lab.startswith(('empty:', 'zeros:')) else lab.split('@')[0].split('=')[0]; kinds[kk] = kinds.get(kk, 0) + 1
     t0 = time.time()
     # sanitizer build, per-case time limit and address-space limit: a crash, a hang or an allocation storm is an outcome
     (cres, cown, cerr), (mres, mown, merr) = harness.run_both(cases, work, shared=shared, flavor='asan',
